@@ -725,3 +725,157 @@ def update_ms_rule(chk, src, rule):
                 chk.ob(rule, f"_update_ms[{'operator' if is_mpo else 'state'}, to_right={to_right}, {'with' if with_sigma else 'without'} singular values]", not problems, fi.where,
                        problems[:3] or "isometry on the site, remainder into the neighbour, one cut, weights once", "isometry on the site, remainder into the neighbour, one cut, weights once", line=fi.node.lineno,
                        detail="_update_ms: " + (problems[0] if problems else ""))
+
+
+# ---------------------------------------------------------------------------------------------- closed-form thermal / vibrational propagator
+def exact_propagator_rule(chk, src, rule):
+    """abstract run of Mpo.exact_propagator on a symbolic two-molecule model (schemes 1 and 4, both spaces) in a small matrix-expression domain: operator symbols, linear
+    combinations, eigh -> (eigenvalues, eigenvectors) of an expression, diag, exp, products and transposes.  V diag(exp(c w)) V^T with (w, V) = eigh(h) is recognised as
+    expm(c h); diag(exp(c arange)) as expm(c n).  Every vibration site must be expm(x h_site) with h_site the site Hamiltonian of the space, every electronic site the identity,
+    and the whole operator scaled once by exp(shift x)."""
+    import sympy as sp
+    MPO_ = "renormalizer/mps/mpo.py"
+    fi = src.func(MPO_, "Mpo.exact_propagator")
+    x, shift = sp.Symbol("x"), sp.Symbol("shift")
+
+    class MX(Sym):
+        """kind: 'lin' {operator name: coefficient} | 'eigvals' h | 'eigvecs' h (transposed flag) | 'diag' vector | 'exp' v | 'vec' (coeff, base) | 'prod' [factors] | 'expm' (coeff, lin) | 'eye' n"""
+        def __init__(self, kind, data, t=False):
+            super().__init__(f"{kind}({data})" + (".T" if t else ""))
+            self.kind, self.data, self.t = kind, data, t
+
+        def __mul__(self, c):
+            c = sp.sympify(c.e if hasattr(c, "e") else c)
+            if self.kind == "lin":
+                return MX("lin", {k: sp.expand(v * c) for k, v in self.data.items()})
+            if self.kind in ("eigvals", "arange", "vec"):
+                base = self.data[1] if self.kind == "vec" else self
+                c0 = self.data[0] if self.kind == "vec" else 1
+                return MX("vec", (sp.expand(c0 * c), base))
+            raise AnalysisError(f"scalar multiple of {self!r}")
+
+        __rmul__ = __mul__
+
+        def __add__(self, o):
+            if self.kind == "lin" and isinstance(o, MX) and o.kind == "lin":
+                d = dict(self.data)
+                for k, v in o.data.items():
+                    d[k] = sp.expand(d.get(k, 0) + v)
+                return MX("lin", d)
+            raise AnalysisError(f"sum of {self!r} and {o!r}")
+
+        @property
+        def T(self):
+            return MX(self.kind, self.data, not self.t)
+
+        def dot(self, o):
+            a = self.data if self.kind == "prod" else [self]
+            b = o.data if o.kind == "prod" else [o]
+            return MX("prod", list(a) + list(b))
+
+        def __matmul__(self, o):
+            return self.dot(o)
+
+        def reshape(self, *shape):
+            shape = list(shape[0]) if len(shape) == 1 and isinstance(shape[0], (list, tuple)) else list(shape)
+            return Site(self, shape)
+
+        def canon(self):
+            """('expm', coefficient, generator) when the expression is a matrix exponential in one of the recognised forms"""
+            if self.kind == "eye":
+                return ("identity", self.data)
+            if self.kind == "diag" and self.data.kind == "exp" and self.data.data.kind == "vec" and isinstance(self.data.data.data[1], MX) and self.data.data.data[1].kind == "arange":
+                return ("expm", self.data.data.data[0], {"n": 1})
+            if self.kind == "prod" and len(self.data) == 3:
+                v, d, vt = self.data
+                if v.kind == "eigvecs" and not v.t and vt.kind == "eigvecs" and vt.t and v.data is vt.data and d.kind == "diag" and d.data.kind == "exp" and d.data.data.kind == "vec" \
+                        and d.data.data.data[1].kind == "eigvals" and d.data.data.data[1].data is v.data and v.data.kind == "lin":
+                    return ("expm", d.data.data.data[0], dict(v.data.data))
+            return ("unrecognised", repr(self))
+
+    class Site(Sym):
+        def __init__(self, mat, shape):
+            super().__init__("site")
+            self.mat, self.shape_ = mat, shape
+
+    def eigh(h, **k):
+        return MX("eigvals", h), MX("eigvecs", h)
+
+    def np_exp(v):
+        if isinstance(v, MX):
+            return MX("exp", v if v.kind == "vec" else MX("vec", (1, v)))
+        return sp.exp(sp.sympify(v))
+    npx = Sym("np", eye=lambda n, **k: MX("eye", n), exp=np_exp, diag=lambda v: MX("diag", v), arange=lambda n: MX("arange", n), iscomplex=lambda v: False,
+              zeros=lambda *a, **k: Blob("zeros"), linalg=Sym("linalg", eigh=eigh))
+    for scheme in (1, 4):
+        for space in ("GS", "EX"):
+            phs = [[Sym(f"ph{m_}{q}", pbond=3 + q, omega=[sp.Symbol(f"w0_{m_}{q}"), sp.Symbol(f"w1_{m_}{q}")], term10=sp.Symbol(f"g_{m_}{q}")) for q in range(2)] for m_ in range(2)]
+            mols = [Sym(f"mol{m_}", ph_list=phs[m_]) for m_ in range(2)]
+
+            class Model(Sym):
+                def __iter__(self):
+                    return iter(mols)
+            model = Model("model", scheme=scheme, order={0: 0} if scheme == 4 else {}, mol_num=2, qn_size=1)
+            if scheme == 4:
+                model.__dict__["order"] = [0, 1, 2, 3, 4]      # the electronic site comes first
+            appended, scaled = [], []
+
+            class Op_(Sym):
+                def __len__(self):
+                    return len(appended)
+
+                def append(self, m_):
+                    appended.append(m_)
+
+                def to_complex(self, inplace=False):
+                    return self
+
+                def scale(self, c, inplace=False):
+                    scaled.append((c, inplace))
+                    return self
+            cls = lambda: Op_("mpo")    # noqa: E731
+            it = SymInterp(src, None, {"np": npx, "xp": npx, "scipy": Sym("scipy", linalg=Sym("linalg", eigh=eigh)), "construct_ph_op_dict": lambda pbond: _PhOps(MX), "logger": Blob("logger")})
+            it.max_depth = 10
+            problems = []
+            try:
+                res = it.call_function(fi, [cls, model, x], {"space": space, "shift": shift})
+            except SymRaise as e:
+                res = None
+                problems.append(f"raises {e}")
+            if not problems:
+                vib = [a for a in appended if isinstance(a, Site) and a.mat.canon()[0] != "identity"]
+                ident = [a for a in appended if isinstance(a, Site) and a.mat.canon()[0] == "identity"]
+                want_n_el = 2 if scheme < 4 else 1
+                if len(vib) != 4 or len(ident) != want_n_el:
+                    problems.append(f"{len(vib)} vibration sites and {len(ident)} identity sites; expected 4 and {want_n_el}")
+                flat = [p for m_ in phs for p in m_]
+                for ph, a in zip(flat, vib):
+                    c = a.mat.canon()
+                    want = {"n": ph.omega[0]} if space == "GS" else {"b^\\dagger b": ph.omega[0], "b^\\dagger + b": ph.term10}
+                    if c[0] != "expm":
+                        problems.append(f"{ph._name}: site matrix {c[1][:90]} is not of the form V diag(exp(c w)) V^T / diag(exp(c n))")
+                        continue
+                    gen = {k: sp.expand(v * c[1]) for k, v in c[2].items()}
+                    wantg = {k: sp.expand(v * x) for k, v in want.items()}
+                    if gen != wantg:
+                        problems.append(f"{ph._name}: site matrix is the exponential of {gen}, expected {wantg}")
+                    if a.shape_ != [1, ph.pbond, ph.pbond, 1]:
+                        problems.append(f"{ph._name}: reshaped to {a.shape_}")
+                tot = [sp.simplify(sp.log(sp.sympify(c)).expand(force=True)) for c, _ in scaled]
+                if len(scaled) != 1 or sp.simplify(sp.sympify(scaled[0][0]) - sp.exp(shift * x)) != 0:
+                    problems.append(f"overall scale factors {[str(c) for c, _ in scaled]}; expected exp(shift*x) once")
+                if not isinstance(res, Op_):
+                    problems.append("the propagator is not returned")
+            chk.ob(rule, f"exact_propagator[scheme {scheme}, {space} space]", not problems, fi.where, problems[:3] or "expm(x h_site) on every vibration site, identity on electronic sites, one scale exp(shift x)",
+                   "expm(x h_site) on every vibration site, identity on electronic sites, one scale exp(shift x)", line=fi.node.lineno,
+                   detail="closed-form propagator exp(x (H + shift)): " + (problems[0] if problems else "") + " - exp(x h) = V exp(x w) V^T for h = V w V^T; V^T first gives the inverse rotation, another "
+                          "generator or a second scale factor gives another temperature / normalisation")
+
+
+class _PhOps:
+    """stand-in for construct_ph_op_dict: operator symbols by name"""
+    def __init__(self, MX):
+        self.MX = MX
+
+    def __getitem__(self, k):
+        return self.MX("lin", {k: 1})
